@@ -218,13 +218,14 @@ fn lazy_steps(cs: &Cs, v: ElementVar, ops: &str) -> SR<OV> {
     Ok(OV::Lazy { steps, vals })
 }
 
-pub const HIST_OPS: &str = "ecvaAksSjdnpmqxiu";
+pub const HIST_OPS: &str = "ecvaAksSjdnpmqxiuXWYZ";
 
 /// A history of wrapper operations on ONE `ElementVar` `v` (second operand: the variable `w` / the constant `eb`):
 ///  e force element   c read compress_to_field()   v read value()
 ///  a v += w (owned)  A v += &w   k v += eb (constant)      s v -= w   S v -= &w   j v -= eb
 ///  d double_in_place n v = v.negate()   p v = v + w   m v = v - &w   q v = select(true, v, w)   x v = v.clone()
 ///  i read v.is_eq(&w)   u v.enforce_equal(&w)
+///  X clone v, double the clone in place   W the same on w   Y v.double() (result dropped)   Z clone v, += &w on the clone, compress it
 fn hist_steps(cs: &Cs, mut v: ElementVar, w: ElementVar, eb: Element, ops: &str) -> SR<OV> {
     let mut steps = vec![cs.num_constraints()];
     let mut reads = vec![];
@@ -248,6 +249,23 @@ fn hist_steps(cs: &Cs, mut v: ElementVar, w: ElementVar, eb: Element, ops: &str)
             'q' => v = ElementVar::conditionally_select(&Boolean::constant(true), &v, &w)?,
             'i' => reads.push(format!("b:{}", val_bo(&v.is_eq(&w)?))),
             'u' => v.enforce_equal(&w)?,
+            // operations on CLONES of v / w that must leave v and w themselves untouched (natively these are no-ops: Element is Copy)
+            'X' => {
+                let mut t = v.clone();
+                <ElementVar as CurveVar<Element, Fq>>::double_in_place(&mut t)?;
+            }
+            'W' => {
+                let mut t = w.clone();
+                <ElementVar as CurveVar<Element, Fq>>::double_in_place(&mut t)?;
+            }
+            'Y' => {
+                let _ = <ElementVar as CurveVar<Element, Fq>>::double(&v)?;
+            }
+            'Z' => {
+                let mut t = v.clone();
+                <ElementVar as AddAssign<&ElementVar>>::add_assign(&mut t, &w);
+                let _ = t.compress_to_field()?;
+            }
             _ => v = v.clone(),
         }
         steps.push(cs.num_constraints());
